@@ -141,6 +141,16 @@ pub fn replay(args: &[String]) {
             let ev = notify::Event { kind: event_kind("modify", false), paths: vec![bad], attrs: Default::default() };
             w::handle_event(vec![root.clone()], tx.clone(), ev);
         }
+        // an un-nameable entry created inside a sub-directory: only the directory is named, and the
+        // next path is not polluted by what was accumulated for the rejected one
+        let _ = std::fs::create_dir_all(root.join("sub"));
+        let ev = notify::Event { kind: event_kind("create", false), paths: vec![root.join("sub").join("dotted.name.x")], attrs: Default::default() };
+        w::handle_event(vec![root.clone()], tx.clone(), ev);
+        let got_sub: BTreeSet<String> = rx.drain().into_iter().flatten().map(|x| ent_json(&x)).collect();
+        if got_sub != ["dir:sub".to_string()].into_iter().collect() {
+            rep.mismatch(json!({"what":"creating an un-nameable entry in a sub-directory must name exactly that directory","got":got_sub}));
+        }
+        let _ = std::fs::remove_dir_all(root.join("sub"));
         let ev = notify::Event { kind: event_kind("modify", false), paths: vec![root.join("ok.x")], attrs: Default::default() };
         w::handle_event(vec![root.clone()], tx, ev);
         let got: Vec<String> = rx.drain().into_iter().flatten().map(|x| ent_json(&x)).collect();
@@ -196,6 +206,10 @@ pub fn real(args: &[String]) {
     step("nested file creation", &|| std::fs::write(r.join("sub").join("n.y"), b"v1").unwrap(), &["file:sub.n:y", "dir:sub"]);
     step("directory creation", &|| std::fs::create_dir(r.join("made")).unwrap(), &["dir:made", "dir:"]);
     step("rename inside a directory", &|| std::fs::rename(r.join("sub").join("n.y"), r.join("sub").join("m.y")).unwrap(), &["file:sub.m:y", "dir:sub"]);
+    step("un-nameable file creation followed by a modification", &|| {
+        std::fs::write(r.join("sub").join(".m.y.swp"), b"x").unwrap();
+        std::fs::write(r.join("sub").join("m.y"), b"v3").unwrap();
+    }, &["file:sub.m:y"]);
     step("nested file deletion", &|| std::fs::remove_file(r.join("sub").join("m.y")).unwrap(), &["file:sub.m:y", "dir:sub"]);
     step("top-level file deletion", &|| std::fs::remove_file(r.join("new.x")).unwrap(), &["file:new:x", "dir:"]);
     step("move in from outside", &|| {
